@@ -105,12 +105,14 @@ def install(I):
         if isinstance(m, BoxV):
             m = I.read(st, m.cell, ())
         if not isinstance(m, Obj) or m.kind != 'dashmap':
-            raise Unmodelled('expected a DashMap object, got %r' % (m,))
+            return None     # a DashMap held as a plain value (sequential checks): see props/pgworld.py
         return m
 
     @M(r'^DashMap::<.*>::entry$', 'DashMap::entry')
     def m_dm_entry(I, st, f, args, fr):
         m = map_of(I, st, args[0])
+        if m is None:
+            return NotImplemented
         k = key_index(I, st, m, args[1])
         name = I.objinfo.get(m.oid, {}).get('name', str(m.oid))
         res = I.shared_op(st, m, 'entry', objects.dashmap_entry(I.cur_tid, k), {'present': 'bool', 'val': 8}, label='%s.entry' % name, info=('entry', k))
@@ -155,6 +157,8 @@ def install(I):
     @M(r'^DashMap::<.*>::remove', 'DashMap::remove')
     def m_dm_remove(I, st, f, args, fr):
         m = map_of(I, st, args[0])
+        if m is None:
+            return NotImplemented
         k = key_index(I, st, m, args[1])
         name = I.objinfo.get(m.oid, {}).get('name', str(m.oid))
         res = I.shared_op(st, m, 'remove', objects.dashmap_remove(k), {'present': 'bool', 'val': 8}, label='%s.remove' % name, info=('remove', k))
@@ -166,6 +170,8 @@ def install(I):
     @M(r'^DashMap::<.*>::insert$', 'DashMap::insert')
     def m_dm_insert(I, st, f, args, fr):
         m = map_of(I, st, args[0])
+        if m is None:
+            return NotImplemented
         k = key_index(I, st, m, args[1])
         name = I.objinfo.get(m.oid, {}).get('name', str(m.oid))
         ident = val_ident(I, st, m, args[2])
@@ -178,6 +184,8 @@ def install(I):
     @M(r'^DashMap::<.*>::get(::<.*>)?$', 'DashMap::get')
     def m_dm_get(I, st, f, args, fr):
         m = map_of(I, st, args[0])
+        if m is None:
+            return NotImplemented
         k = key_index(I, st, m, args[1])
         name = I.objinfo.get(m.oid, {}).get('name', str(m.oid))
         res = I.shared_op(st, m, 'get', objects.dashmap_get(k), {'present': 'bool', 'val': 8}, label='%s.get' % name, info=('get', k))
@@ -189,12 +197,16 @@ def install(I):
     @M(r'^dashmap::mapref::one::Ref::<.*>::value$', 'dashmap Ref::value')
     def m_dm_ref_value(I, st, f, args, fr):
         r = deref_val(I, st, args[0])
+        if not (isinstance(r, Agg) and r.fields and isinstance(r.fields[0], Obj)):
+            return NotImplemented      # reference into a DashMap held as a plain value (props/pgworld.py)
         cell = st.alloc(r.fields[1])
         return I.ret(st, Ref(cell, ()))
 
     @M(r'^DashMap::<.*>::contains_key', 'DashMap::contains_key')
     def m_dm_contains(I, st, f, args, fr):
         m = map_of(I, st, args[0])
+        if m is None:
+            return NotImplemented
         k = key_index(I, st, m, args[1])
         name = I.objinfo.get(m.oid, {}).get('name', str(m.oid))
         res = I.shared_op(st, m, 'get', objects.dashmap_get(k), {'present': 'bool', 'val': 8}, label='%s.get' % name, info=('get', k))
